@@ -88,6 +88,53 @@ def template_bytes():
     return _TPL[0]
 
 
+_FTPL = []
+
+
+def foreign_template_bytes():
+    """The default deck as another producer's packaging library writes it (System.IO.Packaging style): relationship Ids
+    that are not rId<number> (the core-properties relationship first), the core-properties part under
+    /package/services/metadata/core-properties/<id>.psmdcp.  Same parts, same content."""
+    if not _FTPL:
+        import re as _re
+        import zipfile
+        zin = zipfile.ZipFile(io.BytesIO(template_bytes()))
+        new_core = "package/services/metadata/core-properties/0f1e2d3c4b5a.psmdcp"
+        out = io.BytesIO()
+        with zipfile.ZipFile(out, "w", zipfile.ZIP_DEFLATED) as z:
+            for info in zin.infolist():
+                data = zin.read(info.filename)
+                name = info.filename
+                if name == "_rels/.rels":
+                    txt = data.decode("utf-8")
+                    rels = _re.findall(r"<Relationship\b[^>]*/>", txt)
+                    core = [r for r in rels if "core-properties" in r]
+                    rest = [r for r in rels if "core-properties" not in r]
+                    new = []
+                    for i, r in enumerate(core + rest):
+                        r = _re.sub(r'Id="[^"]*"', 'Id="R%08x"' % (0x5b2c9f1e + 7919 * i), r)
+                        r = r.replace('Target="docProps/core.xml"', 'Target="%s"' % new_core)
+                        new.append(r)
+                    head = txt[:txt.index(rels[0])]
+                    data = (head + "".join(new) + "</Relationships>").encode("utf-8")
+                elif name == "[Content_Types].xml":
+                    data = data.replace(b'PartName="/docProps/core.xml"', ('PartName="/%s"' % new_core).encode())
+                elif name == "docProps/core.xml":
+                    name = new_core
+                z.writestr(name, data)
+        _FTPL.append(out.getvalue())
+    return _FTPL[0]
+
+
+def foreign_packaging(case):
+    """a quarter of the histories that start from an existing core-properties part start from the deck in the other
+    producer's packaging (decided by the case itself: the random stream is left as it was)"""
+    import hashlib
+    if case.get("k") not in (0, 2):
+        return False
+    return int(hashlib.sha1(repr((case["now"], case["ops"])).encode()).hexdigest()[:4], 16) % 4 == 0
+
+
 # ------------------------------------------------------------------ schema oracle
 XML_XSD = """<?xml version="1.0"?>
 <xs:schema xmlns:xs="http://www.w3.org/2001/XMLSchema" targetNamespace="http://www.w3.org/XML/1998/namespace">
@@ -263,7 +310,7 @@ def impl_seq(case, schema):
     old_dt = pc.dt
     pc.dt = _FakeMod
     try:
-        prs = Presentation(io.BytesIO(template_bytes()))
+        prs = Presentation(io.BytesIO(foreign_template_bytes() if foreign_packaging(case) else template_bytes()))
         if case["k"] == 0:
             el = prs.core_properties._element
             for ch in list(el):
@@ -306,7 +353,10 @@ def impl_seq(case, schema):
                     from lxml import etree
 
                     with zipfile.ZipFile(io.BytesIO(blob)) as z:
-                        saved_valid = bool(schema.validate(etree.fromstring(z.read("docProps/core.xml"))))
+                        # the member the package's own core-properties relationship names (another producer may keep the
+                        # part elsewhere than docProps/core.xml; python-pptx keeps the name it loaded)
+                        member = str(prs.core_properties.partname)[1:] if hasattr(prs.core_properties, "partname") else "docProps/core.xml"
+                        saved_valid = bool(schema.validate(etree.fromstring(z.read(member)))) if member in z.namelist() else False
                 prs = Presentation(io.BytesIO(blob))
                 cp = prs.core_properties
             vals = []
